@@ -405,8 +405,11 @@ def rule_lock_span(fx, col):
         cell = [s for s in cx.summ.sites_by_body.get(b.key, ()) if s.cls == 'cell']
         ok = len(wr) == 1 and bool(cell)
         if ok:
-            gl = wr[0][1]['dest']['local']
-            drops = b.releases(gl)
+            # the guard: the result of write() itself or whatever it is unwrapped into (found by type)
+            thr_g = lambda t: [0] if U.callee_name(t) in ('expect', 'unwrap', 'unwrap_or_else', 'into_inner') else None
+            gls = [l for l in range(len(b.j['locals'])) if 'RwLockWriteGuard<' in b.local_ty(l) and not b.local_ty(l).lstrip().startswith('&')
+                   and ('call', wr[0][0]) in b.origins(l, through_calls=thr_g)]
+            drops = sorted({x for l in gls for x in b.releases(l)})
             # the count-related steps that must sit under the lock: the inc of the value handed back and the from_ptr of what the
             # exchange found (the rejected `new` is the caller's own value: it may — and should — be destroyed after the unlock)
             xbb = {s_.bb for s_ in cell}
